@@ -222,9 +222,9 @@ func checkC15(tier, replay string) int {
 					// backend connections opened for that client must go away
 					ok := true
 					if !pooled {
-						ok = p.WaitBackendConns(baseL1, baseL2, 6*time.Second)
+						ok = p.WaitBackendConns(baseL1, baseL2, 25*time.Second)
 					} else {
-						ok = p.WaitBackendConns(-1, baseL2, 6*time.Second)
+						ok = p.WaitBackendConns(-1, baseL2, 25*time.Second)
 					}
 					w := map[string]interface{}{"config": jb.cfg, "stream": st.Name, "stream_len": len(stream), "prefix_sent": q, "close": closeKind, "bytewise": bytewise,
 						"prefix_hex_tail": fmt.Sprintf("%x", stream[maxInt(0, q-24):q])}
